@@ -89,6 +89,7 @@ package circuitbreaker
 //@   ensures[deadline-kept] b.nextRetryTimestampMs == old(b.nextRetryTimestampMs)
 //@   ensures[listeners] gToHalf == old(gToHalf) + (ok ? nListeners() : 0) && (ok && nListeners() > 0 ==> gToHalfPrev == Open)
 //@   ensures[hook] ok && ctx.entry != nil ==> len(ctx.entry.exitHandlers) == old(len(ctx.entry.exitHandlers)) + 1
+//@   ensures[hook-only-for-the-winner]{C03,C12} ctx.entry != nil ==> len(ctx.entry.exitHandlers) == old(len(ctx.entry.exitHandlers)) + (ok ? 1 : 0)
 //@   modifies deref(b.state), gToHalf, gToHalfPrev, ctx.entry.exitHandlers, elems(ctx.entry.exitHandlers)
 //@   loop 1:
 //@     invariant gToHalf == old(gToHalf) + #i && (#i > 0 ==> gToHalfPrev == Open)
@@ -453,6 +454,23 @@ package circuitbreaker
 //@     invariant[no-equal-yet] equalIdx == 0 - 1 && (forall j Int :: 0 <= j && j < #i ==> !eqRule(oldResCbs[j].BoundRule(), r))
 //@     invariant[stat-idx] 0 - 1 <= reuseStatIdx && reuseStatIdx < #i && (reuseStatIdx >= 0 ==> statReusable(oldResCbs[reuseStatIdx].BoundRule(), r) && (forall j Int :: 0 <= j && j < reuseStatIdx ==> !statReusable(oldResCbs[j].BoundRule(), r)))
 //@     invariant[no-stat-yet] reuseStatIdx < 0 ==> (forall j Int :: 0 <= j && j < #i ==> !statReusable(oldResCbs[j].BoundRule(), r))
+
+// the statistic handed to a new / modified rule never comes from a breaker that an unchanged rule further down the
+// list is going to keep (that breaker would otherwise be dropped from the candidates and the unchanged rule rebuilt,
+// losing its state); among the others it is the first statistic-compatible one
+//@ func statReuseIndexFor(r, oldResCbs, laterRules) idx
+//@   props C14
+//@   requires forall j Int :: 0 <= j && j < len(oldResCbs) ==> oldResCbs[j] != nil && oldResCbs[j].BoundRule() != nil
+//@   let n = len(oldResCbs)
+//@   ensures[range] 0 - 1 <= idx && idx < n
+//@   ensures[stat-compatible] idx >= 0 ==> statReusable(oldResCbs[idx].BoundRule(), r)
+//@   ensures[never-a-breaker-kept-by-a-later-rule] idx >= 0 ==> (forall k Int :: 0 <= k && k < len(laterRules) ==> !eqRule(oldResCbs[idx].BoundRule(), laterRules[k]))
+//@   ensures[first-such] forall j Int :: 0 <= j && j < (idx >= 0 ? idx : n) && statReusable(oldResCbs[j].BoundRule(), r) ==> (exists k Int :: 0 <= k && k < len(laterRules) && eqRule(oldResCbs[j].BoundRule(), laterRules[k]))
+//@   modifies nothing
+//@   loop 1:
+//@     invariant[skipped-are-incompatible-or-kept] forall j Int :: 0 <= j && j < #i && statReusable(oldResCbs[j].BoundRule(), r) ==> (exists k Int :: 0 <= k && k < len(laterRules) && eqRule(oldResCbs[j].BoundRule(), laterRules[k]))
+//@   loop 2:
+//@     invariant[not-kept-so-far] !kept && (forall k Int :: 0 <= k && k < #i ==> !eqRule(oldRule, laterRules[k]))
 
 // ---- loader entry points as seen by the datasource layer (C18): calls are recorded
 //@ ghost var gCbLoadN Int
